@@ -591,7 +591,7 @@ example :
   decide
 
 
-/-! ### browsers whose handlers re-enter the record manager (D25; `Zc/Model/BrowserReentrant.lean`)
+/-! ### browsers whose handlers re-enter the record manager (D24b; `Zc/Model/BrowserReentrant.lean`)
 
 `_ServiceBrowserBase.async_update_records_complete` fires the pending changes; a handler (`add_service`, …) may create another
 browser, whose `async_add_listener(browser, questions)` purges the expired records and runs nested `async_updates` +
@@ -615,7 +615,7 @@ theorem C06_completion_detached_once {σ : Type} (get : σ → PendingCh) (set :
   rw [hd]
   exact ⟨rfl, completeLoop_detached_once get set fire hfire s⟩
 
-/-- **C06 (no exception escapes when service handlers create browsers; D25 repaired).**  On a sound cache, for every set of
+/-- **C06 (no exception escapes when service handlers create browsers; D24b repaired).**  On a sound cache, for every set of
 handler plans, every nesting depth and every bound `fuel`: the completion round over browsers whose handlers create browsers — each
 creation purging the expired records and running its own rounds over every listener, the creating browser included — returns
 without an exception, and the cache stays sound. -/
@@ -628,7 +628,7 @@ theorem C06_browser_handlers_never_raise (possible : String → List String) (fu
   rw [hd]
   exact (hostR_ok (lower := lower) possible fuel).2.2.2 depth now S ⟨herr, hs⟩
 
-/-- **D25, before the repair**: browser 0 browses `_x._tcp`; Added(b) and Added(c) are pending; its `add_service` handler for `b`
+/-- **D24b, before the repair**: browser 0 browses `_x._tcp`; Added(b) and Added(c) are pending; its `add_service` handler for `b`
 creates browser 2 on `_y._udp`.  An address record cached 121 s earlier (TTL 120) has run out and is not purged yet.  Iterating the
 live dict (`detach = false`): the creation's purge notifies every listener, browser 0's nested completion fires Added(b) **again**
 and Added(c), clears the dict, and the outer loop raises (`RuntimeError: dictionary changed size during iteration`).  Detached: b and c
